@@ -847,6 +847,19 @@ def expr_statements(rng, tier):
             ["if self.c:", "    self.o <<= self.a", "else:", "    self.o <<= self.b"], "seqall")
         add("seqall_idx_%s3" % k, {"a": ("in", _vec(k, 3)), "i": ("in", _vec("U", 2)), "o": ("out", "Bit")},
             ["self.o <<= self.a[self.i]"], "seqall")
+    # clock-less sequential processes (sensitivity "all"): every operand of an if-expression / select_with, also the
+    # else / default operand that is a plain signal or port read nowhere else, must be in the computed sensitivity list
+    for k in "UB":
+        add("seqall_ifexpr_%s3" % k, {"a": ("in", _vec(k, 3)), "b": ("in", _vec(k, 3)), "c": ("in", "Bit"), "o": ("out", _vec(k, 3))},
+            ["self.o <<= self.a if self.c else self.b"], "seqall")
+        add("seqall_select_%s3" % k, {"s": ("in", _vec("B", 2)), "a": ("in", _vec(k, 3)), "b": ("in", _vec(k, 3)),
+                                       "d": ("in", _vec(k, 3)), "o": ("out", _vec(k, 3))},
+            ['self.o <<= select_with(self.s, {"00": self.a, "01": self.b}, default=self.d)'], "seqall")
+    add("seqall_ifexpr_Bit", {"a": ("in", "Bit"), "b": ("in", "Bit"), "c": ("in", "Bit"), "o": ("out", "Bit")},
+        ["self.o <<= self.a if self.c else self.b"], "seqall")
+    add("seqall_ifexpr_sig_U3", {"a": ("in", _vec("U", 3)), "c": ("in", "Bit"), "o": ("out", _vec("U", 3))},
+        ["self.o <<= self.a if self.c else loc"], "seqall",
+        ["loc = Signal[Unsigned[3]](name='loc')"], ["loc.next = self.a + 1"])
     add("seqall_sig_U3", {"a": ("in", _vec("U", 3)), "c": ("in", "Bit"), "o": ("out", _vec("U", 3))},
         ["if self.c:", "    self.o <<= loc", "else:", "    self.o <<= loc + 1"], "seqall",
         ["loc = Signal[Unsigned[3]](name='loc')"], ["loc.next = self.a"])
@@ -942,6 +955,54 @@ def expr_design(idx, stmts):
 
 CORPUS = [
     # (name, entity, reserved, source)
+    # repeated choices (fixed by dba8bb6: now rejected; before, `case` / `with select` listed a choice twice)
+    ("corp_dup_match", "E0", None, HDR + """class E0(cohdl.Entity):
+    clk = Port.input(Bit)
+    a = Port.input(Unsigned[2])
+    x = Port.input(Bit)
+    y = Port.input(Bit)
+    o = Port.output(Bit)
+    def architecture(self):
+        @std.sequential(std.Clock(self.clk))
+        def proc():
+            match self.a:
+                case 1:
+                    self.o <<= self.x
+                case 1:
+                    self.o <<= self.y
+                case _:
+                    self.o <<= False
+"""),
+    ("corp_dup_select", "E0", None, HDR + """class E0(cohdl.Entity):
+    a = Port.input(Unsigned[2])
+    x = Port.input(Bit)
+    y = Port.input(Bit)
+    p = Port.output(Bit)
+    def architecture(self):
+        @std.concurrent
+        def logic():
+            self.p <<= cohdl.select_with(self.a, {1: self.x, Unsigned[2](1): self.y, "01": self.x}, default=self.y)
+"""),
+    ("corp_select_partial_conc", "E0", None, HDR + """class E0(cohdl.Entity):
+    a = Port.input(BitVector[2])
+    x = Port.input(Bit)
+    y = Port.input(Bit)
+    p = Port.output(Bit)
+    def architecture(self):
+        @std.concurrent
+        def logic():
+            self.p <<= cohdl.select_with(self.a, {"00": self.x, "01": self.y})
+"""),
+    ("corp_select_full_conc", "E0", None, HDR + """class E0(cohdl.Entity):
+    a = Port.input(BitVector[2])
+    x = Port.input(Bit)
+    y = Port.input(Bit)
+    p = Port.output(Bit)
+    def architecture(self):
+        @std.concurrent
+        def logic():
+            self.p <<= cohdl.select_with(self.a, {"00": self.x, "01": self.y, "10": self.x ^ self.y, "11": self.x & self.y})
+"""),
     # extern entities of other libraries (fixed by 5a3cb19: the library clause was never emitted); generic maps are
     # outside the reader's subset, so the extern units have ports only
     ("corp_extern_libs", "E0", None, HDR + """ExtA = type("ExtA", (cohdl.Entity,), {"a": Port.input(Bit), "q": Port.output(Bit)}, extern=True, attributes={"path": "liba"})
@@ -1484,6 +1545,8 @@ def run(ck: common.Check, replay=None):
             must = [s for s in stmts if s["tag"] in ("neg_U3", "neg_S3", "abs_S3", "enum_match", "enum_cmp", "array_rw",
                                                      "bool_var", "neg_seq_U3", "toint_U3", "selectwith_B2", "match_B2",
                                                      "seqall_U3", "seqall_B3", "seqall_idx_U3", "seqall_sig_U3", "readout_U3",
+                                                     "seqall_ifexpr_U3", "seqall_ifexpr_B3", "seqall_select_U3", "seqall_ifexpr_Bit",
+                                                     "seqall_ifexpr_sig_U3",
                                                      "readout_conc_B3", "widen_U3_U8", "widen_seq_S3_S8")]
             pick = must + [s for s in pick if s not in must]
         else:
